@@ -133,6 +133,55 @@ def build():
                  "n_ev() == 2 and ev(0)[0] == 'Pickler.save' and same_token(seq_of(ev(0)[1]), seq_of(ev(1)[1]))"},
     ))
 
+    # ---- Hasher.save: every value reaches the pickler whole - itself, or (bound / builtin methods, which do not pickle) a stand-in made of
+    # its identifying parts; the digest object is fed by Hasher.hash only, from the finished stream.  A value, or a part of one, that went
+    # into the digest directly from here would lose its boundaries: [a, b] and [a + b[:1], b[1:]] would hash alike (seeded change
+    # C08-large-bytes-fed-to-digest).  (NumpyHasher.save does feed array buffers directly, together with a stand-in holding class, dtype,
+    # shape and strides; that override is not under contract: numpy hashing is outside C08's universe.)
+    def save_value(interp):
+        k = interp.ctx.choose(5, "value-kind")
+        if k == 0:
+            return BYTES.fresh(interp.ctx, "bytes_value")      # of any length
+        if k == 1:
+            return STR.fresh(interp.ctx, "str_value")
+        if k == 2:
+            return Opaque("othervalue", None, isinstance=())
+        if k == 3:   # a bound method of an instance
+            return Opaque("boundmethod", None, isinstance=("MethodType",), __func__=Opaque("function", None, __name__=STR.fresh(interp.ctx, "fname")),
+                          __self__=Opaque("instance", None, __class__=Opaque("cls", None), cls=Opaque("instcls", None)))
+        # a method of a builtin object (no __func__), e.g. [].append
+        return Opaque("builtinmethod", None, isinstance=("builtin_function_or_method",), hasattr={"__func__": False}, __name__=STR.fresh(interp.ctx, "bname"),
+                      __self__=Opaque("instance", None, __class__=Opaque("cls", None), cls=Opaque("instcls", None)))
+
+    def type_model(interp, args, kwargs):
+        v = args[0]
+        from pyvc.values import BoundMethod
+        if isinstance(v, BoundMethod):
+            return Opaque("pyclass", "builtin_function_or_method", classname="builtin_function_or_method")
+        if isinstance(v, Opaque) and "cls" in v.attrs:
+            return v.attrs["cls"]
+        if isinstance(v, ModuleRef):
+            return Opaque("pyclass", "module", classname="module")
+        return base_type(interp, args, kwargs)
+
+    from pyvc.values import ModuleRef
+    base_type = p.models["builtin:type"]
+    p.models["builtin:type"] = type_model
+    p.models["new:_MyHash"] = lambda i, a, k: Opaque("myhash", None, parts=tuple(a))
+    save_glob = dict(glob)
+    save_glob["_MyHash"] = _Fn(lambda i, a, k: Opaque("myhash", None, parts=tuple(a)))
+    p.add(Contract(
+        H, "Hasher.save", props=["C08", "C06", "C02"], globals=save_glob,
+        params=dict(self=ObjOf("Hasher", stream=OpaqueOf("bytesio"), _hash=OpaqueOf("hashobj", algo=STR)), obj=save_value),
+        ensures={
+            "handed_to_the_pickler_exactly_once": "n_ev() == 1 and ev(0)[0] == 'Pickler.save'",
+            "plain_values_reach_the_pickler_themselves": "implies(not is_tag(obj, 'boundmethod') and not is_tag(obj, 'builtinmethod'), ev(0)[1] is obj)",
+            "methods_are_replaced_by_their_identifying_parts": "implies(is_tag(obj, 'boundmethod') or is_tag(obj, 'builtinmethod'), is_tag(ev(0)[1], 'myhash') and ev(0)[1].parts[1] is obj.__self__ "
+                                                               "and ev(0)[1].parts[0] is (obj.__func__.__name__ if is_tag(obj, 'boundmethod') else obj.__name__))",
+            "the_digest_is_fed_from_the_finished_stream_only": "n_events('hash.update') == 0",
+        },
+    ))
+
     # ---- memoize: str / bytes are never memoised (equal strings at different addresses hash alike); everything else deferred unchanged
     p.add(Contract(
         H, "Hasher.memoize", props=["C08", "C06"], globals=glob,
